@@ -138,6 +138,46 @@ def ast_register_count():
     return n
 
 
+def stateful_rule_modules():
+    """AST scan of the modules that own registered rules: module-level / closure state a rule's result could depend
+    on besides its arguments — memo classes and instances, functools caches, module-level mutable containers.
+    -> {module: [description, ...]}"""
+    import ast
+    mods = sorted(set(q.rsplit(".", 1)[0] for _, _, q, _, _ in registry_entries()))
+    out = OrderedDict()
+    for m in mods:
+        f = REPO / (m.replace(".", "/") + ".py")
+        if not f.exists():
+            f = REPO / m.replace(".", "/") / "__init__.py"
+        try:
+            tree = ast.parse(f.read_text())
+        except (OSError, SyntaxError):
+            continue
+        found = []
+        for node in ast.walk(tree):
+            if isinstance(node, ast.ClassDef):
+                attrs = [n for n in ast.walk(node) if isinstance(n, ast.Attribute) and isinstance(n.ctx, ast.Store)
+                         and "cache" in n.attr.lower()]
+                if attrs or "memo" in node.name.lower():
+                    found.append(f"class {node.name} (line {node.lineno}): stores {sorted(set(a.attr for a in attrs))}")
+            if isinstance(node, ast.FunctionDef):
+                for d in node.decorator_list:
+                    name = ast.unparse(d)
+                    if "lru_cache" in name or name.endswith("cache") or "memoize" in name.lower():
+                        found.append(f"def {node.name} (line {node.lineno}): @{name}")
+            if isinstance(node, ast.Call) and isinstance(node.func, ast.Name) and node.func.id in ("_Memoized",):
+                found.append(f"{node.func.id}(...) instance created at line {node.lineno}")
+        for node in tree.body:
+            if isinstance(node, ast.Assign) and isinstance(node.value, (ast.Dict, ast.List, ast.Set)) is False:
+                v = node.value
+                if isinstance(v, ast.Call) and ast.unparse(v.func).split(".")[-1] in (
+                        "dict", "defaultdict", "OrderedDict", "WeakValueDictionary", "WeakKeyDictionary", "Counter"):
+                    found.append(f"module-level {ast.unparse(node.targets[0])} = {ast.unparse(v.func)}(...) (line {node.lineno})")
+        if found:
+            out[m] = sorted(set(found))
+    return out
+
+
 def write_if_changed(path, text):
     if path.exists() and path.read_text() == text:
         return False
@@ -937,7 +977,7 @@ def battery(ctx, chk, n_recipes, n_sp, focus=None):
 
 
 ANCHORS_PER_FAMILY = 20
-ANCHORS = {"constant": 80, "tensordot": 72, "independent": 64, "getitem": 48}
+ANCHORS = {"constant": 80, "tensordot": 72, "independent": 64, "getitem": 48, "contraction": 40, "function": 24}
 ANCHOR_MODES = {
     "subschain": ["normalize", "reflect>normalize", "eager"],
     "tensordot": ["eager", "normalize>eager"],
@@ -985,6 +1025,17 @@ def report(ctx, chk):
     ctx.extra["rules_not_fireable"] = {q: why for q, why in NOT_FIREABLE.items() if q in reg_fns}
     uncovered = [q for q in reg_fns if not chk.fired_nonid.get(q) and q not in NOT_FIREABLE]
     ctx.extra["rules_uncovered"] = uncovered
+    # history dependence: a rule must be checked on at least two DIFFERENT argument tuples within one process
+    # (memo objects / caches make the second call the interesting one); distinct = different structural key
+    once = [q for q in reg_fns if chk.fired_nonid.get(q) == 1 and q not in NOT_FIREABLE]
+    ctx.extra["rules_fired_only_once"] = once
+    try:
+        ctx.extra["stateful_rule_modules"] = stateful_rule_modules()
+    except Exception as e:      # evidence only
+        ctx.extra["stateful_rule_modules"] = f"scan failed: {e}"
+    if once and getattr(chk, "gate_coverage", True):
+        ctx.infra_errors.append("C02 coverage gap: rule function(s) checked on a single argument tuple only (a history-"
+                                "dependent rule needs a second, different firing in the same process): " + ", ".join(once))
     if uncovered and getattr(chk, "gate_coverage", True):
         ctx.infra_errors.append("C02 coverage gap: registered rule function(s) of an exact interpretation never fired with a "
                                 "non-identity rewrite and are not on the reasoned exclusion list: " + ", ".join(uncovered))
